@@ -30,7 +30,8 @@ ASSUMPTIONS = ['the cache mappings are well-behaved MutableMappings (what they r
 BASE = ['x + 1', 'len(y)', 'y.push(1)\ny', 'z = x\nz', 'undefined_q', '1 +', 'f = v => v + x\nf(2)', 'max(x, 2)', 'len = 3\nlen',
         'd["k"]', '[x, [x]]', '{"a": y}', 'x / 0', 'for', 'y[5]', 'x if x > 2 else y', 'sorted(y)', 'g(1)', '', '# c', 'x;;y',
         'y | map(v => v * 2) | sum', 'x = x + 1\nx', 'len([1, 2, 3])', 'str(x) + "!"', 'd["n"] = y\nd', 'min(y)', '$', 'del d["k"]\nd',
-        'y += [x]\ny', 'h = [1]\nh.push(h)\nlen(h)']
+        'y += [x]\ny', 'h = [1]\nh.push(h)\nlen(h)', '[]', '{}', 'x if False else []', 'get(d, "zz", [])', '[[], {}]', 'q = []\nq',
+        'a b', 'x = 1\ny y', 'z = 1\nz +* 2', 'x = 2; y y', 'r = []\nr.push([])\nr[0].push(x)\nr']
 WS = ['', '', '', ' ', '\t', '\n', '\r\n', '\r', '\x0c', '\xa0', '  \n', ';']
 BUDGETS = [100, 100, 100, 10 ** 6, 6, 3, 1]
 
